@@ -9,7 +9,7 @@ QUICK = ['seq2', 'two_if', 'catch_act', 'msg_set', 'par_block', 'outs_act']
 
 def main(tier, seed):
     c = Check("C05", tier, seed)
-    jobs, bounds = scripted_jobs("C05", "c05", QUICK, tier, seed, extra=dict(skip_running_acts=True, omit_outputs=True))
+    jobs, bounds = scripted_jobs("C05", "c05", QUICK, tier, seed, extra=dict(skip_running_acts=True, omit_outputs=True), error_scripts=False)
     # last clause: concurrent identical actions (two model threads, one pre-emption, every lock operation of the first as switch point)
     race_scen = ["seq2", "catch_act"] if tier == "quick" else ["seq2", "catch_act", "two_if", "par_block", "outs_act", "nested"]
     for n in race_scen:
